@@ -503,6 +503,10 @@ func (vs *ValidatorStore) GetEndBlockUpdate(ctx *ValidatorContext, req types.Req
 		sort.Strings(keysLA)
 
 		for _, addr := range keysLA {
+			// never answer "nobody is elected" by removing everybody: Tendermint cannot run on an empty set
+			if activeCount == 0 {
+				break
+			}
 			addrHuman := keys.Address(addr).Humanize()
 			pub, ok := nonTopValidators[addrHuman]
 			if !ok {
